@@ -3,6 +3,501 @@ From Coq Require Import Lia Sorting.Sorted.
 From AGH Require Import Base.Run Model.ClientIndex.
 Local Open Scope N_scope.
 
+(** * Equality tests *)
+Lemma eqb_list_spec {A} (eqb : A -> A -> bool) :
+  (forall a b, eqb a b = true <-> a = b) ->
+  forall l1 l2, eqb_list eqb l1 l2 = true <-> l1 = l2.
+Proof.
+  intros H. induction l1 as [|a l1 IH]; destruct l2 as [|b l2]; cbn; try (split; congruence).
+  rewrite andb_true_iff, H, IH. split; [intros [-> ->]; reflexivity|intros E; inversion E; auto].
+Qed.
+
+Lemma eqb_bytes_spec : forall a b, eqb_bytes a b = true <-> a = b.
+Proof. apply eqb_list_spec. apply N.eqb_eq. Qed.
+
+Lemma prefix_eqb_spec : forall a b, prefix_eqb a b = true <-> a = b.
+Proof.
+  intros [a1 a2] [b1 b2]. unfold prefix_eqb; cbn [fst snd].
+  rewrite andb_true_iff, eqb_bytes_spec, N.eqb_eq. split; [intros [-> ->]; reflexivity|intros E; inversion E; auto].
+Qed.
+
+(** * Association lists behave like maps *)
+Section AL.
+  Context {K V : Type} (eqb : K -> K -> bool).
+  Hypothesis eqb_spec : forall a b, eqb a b = true <-> a = b.
+
+  Lemma eqb_refl' k : eqb k k = true.
+  Proof. apply eqb_spec; reflexivity. Qed.
+  Lemma eqb_ne k k' : k <> k' -> eqb k k' = false.
+  Proof. intros H. destruct (eqb k k') eqn:E; [apply eqb_spec in E; contradiction|reflexivity]. Qed.
+
+  Lemma al_get_del_eq k (m : list (K * V)) : al_get eqb k (al_del eqb k m) = None.
+  Proof.
+    unfold al_del. induction m as [|[k' v] m IH]; cbn; [reflexivity|].
+    destruct (eqb k k') eqn:E; cbn; [exact IH|]. rewrite E. exact IH.
+  Qed.
+  Lemma al_get_del_ne k k' (m : list (K * V)) : k <> k' -> al_get eqb k' (al_del eqb k m) = al_get eqb k' m.
+  Proof.
+    intros Hne. unfold al_del. induction m as [|[k0 v] m IH]; cbn; [reflexivity|].
+    destruct (eqb k k0) eqn:E; cbn.
+    - apply eqb_spec in E; subst k0. rewrite (eqb_ne k' k) by congruence. exact IH.
+    - rewrite IH. reflexivity.
+  Qed.
+  Lemma al_get_set_eq k v (m : list (K * V)) : al_get eqb k (al_set eqb k v m) = Some v.
+  Proof. unfold al_set; cbn. rewrite eqb_refl'. reflexivity. Qed.
+  Lemma al_get_set_ne k k' v (m : list (K * V)) : k <> k' -> al_get eqb k' (al_set eqb k v m) = al_get eqb k' m.
+  Proof.
+    intros Hne. unfold al_set; cbn. rewrite (eqb_ne k' k) by congruence. apply al_get_del_ne; assumption.
+  Qed.
+  Lemma al_get_in k v (m : list (K * V)) : al_get eqb k m = Some v -> In (k, v) m.
+  Proof.
+    induction m as [|[k' v'] m IH]; cbn; [discriminate|].
+    destruct (eqb k k') eqn:E; [apply eqb_spec in E; intros H; inversion H; subst; auto|auto].
+  Qed.
+End AL.
+
+(** * The orders *)
+Lemma cmp_bytes_refl a : cmp_bytes a a = Eq.
+Proof. induction a as [|x a IH]; cbn; [reflexivity|]. rewrite N.compare_refl. exact IH. Qed.
+
+Lemma cmp_bytes_eq a : forall b, cmp_bytes a b = Eq -> a = b.
+Proof.
+  induction a as [|x a IH]; destruct b as [|y b]; cbn; try congruence.
+  destruct (N.compare_spec x y); try discriminate. intros Hc; f_equal; auto.
+Qed.
+
+Lemma cmp_bytes_antisym a : forall b, cmp_bytes b a = CompOpp (cmp_bytes a b).
+Proof.
+  induction a as [|x a IH]; destruct b as [|y b]; cbn; try reflexivity.
+  rewrite (N.compare_antisym x y). destruct (x ?= y); cbn; auto.
+Qed.
+
+Lemma cmp_bytes_trans a : forall b c, cmp_bytes a b = Lt -> cmp_bytes b c = Lt -> cmp_bytes a c = Lt.
+Proof.
+  induction a as [|x a IH]; destruct b as [|y b]; destruct c as [|z c]; cbn; try congruence.
+  intros H1 H2.
+  destruct (N.compare_spec x y) as [E1|L1|G1]; try discriminate;
+  destruct (N.compare_spec y z) as [E2|L2|G2]; try discriminate.
+  - subst. rewrite N.compare_refl. eauto.
+  - subst. rewrite (proj2 (N.compare_lt_iff _ _) L2). reflexivity.
+  - subst. rewrite (proj2 (N.compare_lt_iff _ _) L1). reflexivity.
+  - rewrite (proj2 (N.compare_lt_iff x z)) by lia. reflexivity.
+Qed.
+
+Lemma addr_compare_refl a : addr_compare a a = Eq.
+Proof. unfold addr_compare. rewrite Nat.compare_refl. apply cmp_bytes_refl. Qed.
+Lemma addr_compare_eq a b : addr_compare a b = Eq -> a = b.
+Proof.
+  unfold addr_compare. destruct (Nat.compare_spec (length a) (length b)); try discriminate.
+  apply cmp_bytes_eq.
+Qed.
+Lemma addr_compare_antisym a b : addr_compare b a = CompOpp (addr_compare a b).
+Proof.
+  unfold addr_compare. rewrite (Nat.compare_antisym (length a) (length b)).
+  destruct (Nat.compare (length a) (length b)); cbn; auto using cmp_bytes_antisym.
+Qed.
+Lemma addr_compare_trans a b c : addr_compare a b = Lt -> addr_compare b c = Lt -> addr_compare a c = Lt.
+Proof.
+  unfold addr_compare.
+  destruct (Nat.compare_spec (length a) (length b)) as [E1|L1|G1];
+  destruct (Nat.compare_spec (length b) (length c)) as [E2|L2|G2]; try discriminate.
+  - replace (Nat.compare (length a) (length c)) with (@Eq); [apply cmp_bytes_trans|].
+    symmetry; apply Nat.compare_eq_iff; lia.
+  - intros _ _. replace (Nat.compare (length a) (length c)) with Lt; [reflexivity|].
+    symmetry; apply Nat.compare_lt_iff; lia.
+  - intros _ _. replace (Nat.compare (length a) (length c)) with Lt; [reflexivity|].
+    symmetry; apply Nat.compare_lt_iff; lia.
+  - intros _ _. replace (Nat.compare (length a) (length c)) with Lt; [reflexivity|].
+    symmetry; apply Nat.compare_lt_iff; lia.
+Qed.
+
+Lemma subnet_compare_refl x : subnet_compare x x = Eq.
+Proof. unfold subnet_compare. rewrite N.compare_refl. apply addr_compare_refl. Qed.
+Lemma subnet_compare_eq x y : subnet_compare x y = Eq -> x = y.
+Proof.
+  destruct x as [xa xb], y as [ya yb]. unfold subnet_compare; cbn [fst snd].
+  destruct (N.compare_spec yb xb); try discriminate. intros Hc. apply addr_compare_eq in Hc. congruence.
+Qed.
+Lemma subnet_compare_antisym x y : subnet_compare y x = CompOpp (subnet_compare x y).
+Proof.
+  unfold subnet_compare. rewrite (N.compare_antisym (snd y) (snd x)).
+  destruct (snd y ?= snd x); cbn; auto using addr_compare_antisym.
+Qed.
+Lemma subnet_compare_trans x y z :
+  subnet_compare x y = Lt -> subnet_compare y z = Lt -> subnet_compare x z = Lt.
+Proof.
+  unfold subnet_compare.
+  destruct (N.compare_spec (snd y) (snd x)) as [E1|L1|G1];
+  destruct (N.compare_spec (snd z) (snd y)) as [E2|L2|G2]; try discriminate.
+  - replace (snd z ?= snd x) with (@Eq); [apply addr_compare_trans|].
+    symmetry; apply N.compare_eq_iff; lia.
+  - intros _ _. replace (snd z ?= snd x) with Lt; [reflexivity|]. symmetry; apply N.compare_lt_iff; lia.
+  - intros _ _. replace (snd z ?= snd x) with Lt; [reflexivity|]. symmetry; apply N.compare_lt_iff; lia.
+  - intros _ _. replace (snd z ?= snd x) with Lt; [reflexivity|]. symmetry; apply N.compare_lt_iff; lia.
+Qed.
+(** Earlier in the order = at least as long a prefix. *)
+Lemma subnet_compare_lt_bits x y : subnet_compare x y = Lt -> snd y <= snd x.
+Proof.
+  unfold subnet_compare. destruct (N.compare_spec (snd y) (snd x)); try discriminate; lia.
+Qed.
+
+(** * The sorted subnet map *)
+Definition sm_lt {V} (x y : prefix * V) : Prop := subnet_compare (fst x) (fst y) = Lt.
+Definition sm_sorted {V} (m : list (prefix * V)) : Prop := StronglySorted sm_lt m.
+
+Lemma prefix_eqb_refl k : prefix_eqb k k = true.
+Proof. apply prefix_eqb_spec; reflexivity. Qed.
+Lemma prefix_eqb_ne k k' : k <> k' -> prefix_eqb k k' = false.
+Proof. apply eqb_ne, prefix_eqb_spec. Qed.
+
+Lemma sm_get_set_eq {V} k (v : V) m : sm_get k (sm_set k v m) = Some v.
+Proof.
+  unfold sm_get. induction m as [|[k' v'] m IH]; cbn.
+  - rewrite prefix_eqb_refl; reflexivity.
+  - destruct (subnet_compare k' k) eqn:E; cbn; try (rewrite prefix_eqb_refl; reflexivity).
+    rewrite prefix_eqb_ne; [exact IH|]. intros ->. rewrite subnet_compare_refl in E; discriminate.
+Qed.
+
+Lemma sm_get_set_ne {V} k k' (v : V) m : k <> k' -> sm_get k' (sm_set k v m) = sm_get k' m.
+Proof.
+  intros Hne. unfold sm_get. induction m as [|[k0 v0] m IH]; cbn.
+  - rewrite prefix_eqb_ne by congruence; reflexivity.
+  - destruct (subnet_compare k0 k) eqn:E; cbn.
+    + apply subnet_compare_eq in E; subst k0. rewrite prefix_eqb_ne by congruence; reflexivity.
+    + rewrite IH; reflexivity.
+    + rewrite (prefix_eqb_ne k' k) by congruence; reflexivity.
+Qed.
+
+Lemma sm_set_in {V} k (v : V) m x : In x (sm_set k v m) -> x = (k, v) \/ In x m.
+Proof.
+  induction m as [|[k' v'] m IH]; cbn; [intuition|].
+  destruct (subnet_compare k' k); cbn; intuition.
+Qed.
+
+Lemma sm_set_sorted {V} k (v : V) m : sm_sorted m -> sm_sorted (sm_set k v m).
+Proof.
+  unfold sm_sorted. induction 1 as [|[k' v'] m Hs IH Hall]; cbn.
+  - constructor; constructor.
+  - destruct (subnet_compare k' k) eqn:E.
+    + apply subnet_compare_eq in E; subst k'. constructor; [assumption|].
+      eapply Forall_impl; [|exact Hall]. intros a Ha; exact Ha.
+    + constructor; [exact IH|]. apply Forall_forall. intros x Hx.
+      apply sm_set_in in Hx. destruct Hx as [->|Hx]; [exact E|].
+      rewrite Forall_forall in Hall; auto.
+    + assert (Hk : subnet_compare k k' = Lt).
+      { rewrite (subnet_compare_antisym k' k), E; reflexivity. }
+      constructor; [constructor; assumption|].
+      constructor; [exact Hk|]. eapply Forall_impl; [|exact Hall].
+      intros a Ha. unfold sm_lt in *; cbn [fst] in *. eapply subnet_compare_trans; eassumption.
+Qed.
+
+Lemma filter_sorted {A} (R : A -> A -> Prop) f l : StronglySorted R l -> StronglySorted R (filter f l).
+Proof.
+  induction 1 as [|a l Hs IH Hall]; cbn; [constructor|].
+  destruct (f a); [|exact IH]. constructor; [exact IH|].
+  apply Forall_forall. intros x Hx. apply filter_In in Hx. rewrite Forall_forall in Hall. apply Hall, Hx.
+Qed.
+
+Lemma sm_del_sorted {V} k (m : list (prefix * V)) : sm_sorted m -> sm_sorted (sm_del k m).
+Proof. apply filter_sorted. Qed.
+
+Lemma sm_sorted_in_get {V} (m : list (prefix * V)) p u : sm_sorted m -> In (p, u) m -> sm_get p m = Some u.
+Proof.
+  unfold sm_sorted, sm_get. induction 1 as [|[k' v'] m Hs IH Hall]; cbn; [tauto|].
+  intros [E|Hin].
+  - inversion E; subst. rewrite prefix_eqb_refl; reflexivity.
+  - destruct (prefix_eqb p k') eqn:E; [|auto].
+    apply prefix_eqb_spec in E; subst k'. rewrite Forall_forall in Hall.
+    specialize (Hall _ Hin). unfold sm_lt in Hall; cbn in Hall.
+    rewrite subnet_compare_refl in Hall; discriminate.
+Qed.
+
+(** The first hit of a search through a sorted list precedes every other hit. *)
+Lemma find_sorted_min {A} (R : A -> A -> Prop) f l x :
+  StronglySorted R l -> List.find f l = Some x ->
+  In x l /\ f x = true /\ forall y, In y l -> f y = true -> y = x \/ R x y.
+Proof.
+  induction 1 as [|a l Hs IH Hall]; cbn; [discriminate|].
+  destruct (f a) eqn:E.
+  - intros H; inversion H; subst. split; [auto|]. split; [assumption|].
+    intros y [->|Hy] _; [auto|]. right. rewrite Forall_forall in Hall; auto.
+  - intros H. destruct (IH H) as (Hin & Hf & Hmin). split; [auto|]. split; [assumption|].
+    intros y [->|Hy] Hfy; [congruence|auto].
+Qed.
+
+(** * Keyed maps to uids, generically (ClientIDs, IPs, MACs, names, subnets) *)
+Section KM.
+  Variables (K M : Type).
+  Variable get : K -> M -> option uid.
+  Variable set : K -> uid -> M -> M.
+  Variable del : K -> M -> M.
+  Hypothesis K_dec : forall a b : K, {a = b} + {a <> b}.
+  Hypothesis get_set_eq : forall k v m, get k (set k v m) = Some v.
+  Hypothesis get_set_ne : forall k k' v m, k <> k' -> get k' (set k v m) = get k' m.
+  Hypothesis get_del_eq : forall k m, get k (del k m) = None.
+  Hypothesis get_del_ne : forall k k' m, k <> k' -> get k' (del k m) = get k' m.
+
+  Lemma get_add_keys_out ks u : forall m k, ~ In k ks -> get k (add_keys set ks u m) = get k m.
+  Proof.
+    unfold add_keys. induction ks as [|k0 ks IH]; cbn; intros m k Hk; [reflexivity|].
+    rewrite IH by tauto. apply get_set_ne. intros ->; apply Hk; auto.
+  Qed.
+  Lemma get_add_keys_in ks u : forall m k, In k ks -> get k (add_keys set ks u m) = Some u.
+  Proof.
+    unfold add_keys. induction ks as [|k0 ks IH]; cbn; intros m k Hk; [tauto|].
+    destruct (in_dec K_dec k ks) as [Hin|Hout]; [apply IH; assumption|].
+    destruct Hk as [->|Hk]; [|contradiction].
+    change (get k (add_keys set ks u (set k u m)) = Some u).
+    rewrite get_add_keys_out by assumption. apply get_set_eq.
+  Qed.
+  Lemma get_del_keys_out ks : forall m k, ~ In k ks -> get k (del_keys del ks m) = get k m.
+  Proof.
+    unfold del_keys. induction ks as [|k0 ks IH]; cbn; intros m k Hk; [reflexivity|].
+    rewrite IH by tauto. apply get_del_ne. intros ->; apply Hk; auto.
+  Qed.
+  Lemma get_del_keys_in ks : forall m k, In k ks -> get k (del_keys del ks m) = None.
+  Proof.
+    unfold del_keys. induction ks as [|k0 ks IH]; cbn; intros m k Hk; [tauto|].
+    destruct (in_dec K_dec k ks) as [Hin|Hout]; [apply IH; assumption|].
+    destruct Hk as [->|Hk]; [|contradiction].
+    change (get k (del_keys del ks (del k m)) = None).
+    rewrite get_del_keys_out by assumption. apply get_del_eq.
+  Qed.
+  Lemma get_del_keys_sub ks m k u : get k (del_keys del ks m) = Some u -> get k m = Some u.
+  Proof.
+    destruct (in_dec K_dec k ks) as [Hin|Hout].
+    - rewrite get_del_keys_in by assumption. discriminate.
+    - rewrite get_del_keys_out by assumption. auto.
+  Qed.
+
+  Lemma clash_key_none ks u m :
+    clash_key get ks u m = None <-> (forall k u', In k ks -> get k m = Some u' -> u' = u).
+  Proof.
+    induction ks as [|k0 ks IH]; cbn; [split; [tauto|reflexivity]|].
+    destruct (get k0 m) as [u0|] eqn:E.
+    - destruct (u0 =? u) eqn:Eu.
+      + apply N.eqb_eq in Eu; subst u0. rewrite IH. split.
+        * intros H k u' [->|Hk] Hg; [congruence|eauto].
+        * intros H k u' Hk; apply H; auto.
+      + apply N.eqb_neq in Eu. split; [discriminate|]. intros H. exfalso. apply Eu. apply (H k0); auto.
+    - rewrite IH. split.
+      + intros H k u' [->|Hk] Hg; [congruence|eauto].
+      + intros H k u' Hk; apply H; auto.
+  Qed.
+
+  (** The per-map part of the invariant: an entry [k -> u] exists exactly when
+      the client stored under [u] lists [k]. *)
+  Definition map_ok (cl : uid -> option client) (keys : client -> list K) (m : M) : Prop :=
+    forall k u, get k m = Some u <-> exists c, cl u = Some c /\ In k (keys c).
+
+  Lemma map_ok_add cl cl' keys m c :
+    map_ok cl keys m -> cl (c_uid c) = None ->
+    cl' (c_uid c) = Some c -> (forall u, u <> c_uid c -> cl' u = cl u) ->
+    clash_key get (keys c) (c_uid c) m = None ->
+    map_ok cl' keys (add_keys set (keys c) (c_uid c) m).
+  Proof.
+    intros Hok Hfresh Hnew Hold Hclash k u. rewrite clash_key_none in Hclash.
+    destruct (in_dec K_dec k (keys c)) as [Hin|Hout].
+    - rewrite get_add_keys_in by assumption. split.
+      + intros E; inversion E; subst u. eauto.
+      + intros (c0 & Hc0 & Hk). destruct (N.eq_dec u (c_uid c)) as [->|Hne]; [reflexivity|].
+        rewrite Hold in Hc0 by assumption.
+        assert (Hg : get k m = Some u) by (apply Hok; eauto).
+        exfalso. apply Hne. eapply Hclash; eassumption.
+    - rewrite get_add_keys_out by assumption. rewrite (Hok k u). split.
+      + intros (c0 & Hc0 & Hk). exists c0. split; [|assumption].
+        rewrite Hold; [assumption|]. intros ->. congruence.
+      + intros (c0 & Hc0 & Hk). destruct (N.eq_dec u (c_uid c)) as [->|Hne].
+        * rewrite Hnew in Hc0. inversion Hc0; subst c0. contradiction.
+        * rewrite Hold in Hc0 by assumption. eauto.
+  Qed.
+
+  Lemma map_ok_remove cl cl' keys m c u0 :
+    map_ok cl keys m -> cl u0 = Some c ->
+    cl' u0 = None -> (forall u, u <> u0 -> cl' u = cl u) ->
+    map_ok cl' keys (del_keys del (keys c) m).
+  Proof.
+    intros Hok Hc Hgone Hold k u.
+    destruct (in_dec K_dec k (keys c)) as [Hin|Hout].
+    - rewrite get_del_keys_in by assumption. split; [discriminate|].
+      intros (c0 & Hc0 & Hk). exfalso.
+      destruct (N.eq_dec u u0) as [->|Hne]; [congruence|].
+      rewrite Hold in Hc0 by assumption.
+      assert (H1 : get k m = Some u) by (apply Hok; eauto).
+      assert (H2 : get k m = Some u0) by (apply Hok; eauto).
+      congruence.
+    - rewrite get_del_keys_out by assumption. rewrite (Hok k u). split.
+      + intros (c0 & Hc0 & Hk). exists c0. split; [|assumption].
+        rewrite Hold; [assumption|]. intros ->. congruence.
+      + intros (c0 & Hc0 & Hk). destruct (N.eq_dec u u0) as [->|Hne]; [congruence|].
+        rewrite Hold in Hc0 by assumption. eauto.
+  Qed.
+
+  Lemma clash_none_after_del ks ks' u m :
+    clash_key get ks u m = None -> clash_key get ks u (del_keys del ks' m) = None.
+  Proof.
+    rewrite !clash_key_none. intros H k u' Hk Hg. apply get_del_keys_sub in Hg. eauto.
+  Qed.
+End KM.
+
+(** * The registry invariant *)
+Definition names_of (c : client) : list bytes := [c_name c].
+
+Definition bytes_dec : forall a b : bytes, {a = b} + {a <> b} := list_eq_dec N.eq_dec.
+Definition prefix_dec : forall a b : prefix, {a = b} + {a <> b}.
+Proof. decide equality; [apply N.eq_dec|apply bytes_dec]. Defined.
+
+Definition bmap_ok := map_ok bytes (list (bytes * uid)) bget.
+Definition smap_ok := map_ok prefix (list (prefix * uid)) sm_get.
+
+Record Inv (ix : index) : Prop := {
+  inv_uid : forall u c, deref ix u = Some c -> c_uid c = u;
+  inv_name : bmap_ok (deref ix) names_of (name_to ix);
+  inv_cid : bmap_ok (deref ix) c_cids (cid_to ix);
+  inv_ip : bmap_ok (deref ix) c_ips (ip_to ix);
+  inv_mac : bmap_ok (deref ix) c_macs (mac_to ix);
+  inv_subnet : smap_ok (deref ix) c_subnets (subnet_to ix);
+  inv_sorted : sm_sorted (subnet_to ix)
+}.
+
+Lemma Inv_empty : Inv empty_index.
+Proof.
+  constructor; try (intros k u; cbn; split; [discriminate|intros (c & H & _); discriminate]).
+  - intros u c; cbn; discriminate.
+  - constructor.
+Qed.
+
+Lemma bget_set_eq k v (m : list (bytes * uid)) : bget k (bset k v m) = Some v.
+Proof. apply al_get_set_eq, eqb_bytes_spec. Qed.
+Lemma bget_set_ne k k' v (m : list (bytes * uid)) : k <> k' -> bget k' (bset k v m) = bget k' m.
+Proof. apply al_get_set_ne, eqb_bytes_spec. Qed.
+Lemma bget_del_eq k (m : list (bytes * uid)) : bget k (bdel k m) = None.
+Proof. apply al_get_del_eq. Qed.
+Lemma bget_del_ne k k' (m : list (bytes * uid)) : k <> k' -> bget k' (bdel k m) = bget k' m.
+Proof. apply al_get_del_ne, eqb_bytes_spec. Qed.
+Lemma sm_get_del_eq k (m : list (prefix * uid)) : sm_get k (sm_del k m) = None.
+Proof. apply al_get_del_eq. Qed.
+Lemma sm_get_del_ne k k' (m : list (prefix * uid)) : k <> k' -> sm_get k' (sm_del k m) = sm_get k' m.
+Proof. apply al_get_del_ne, prefix_eqb_spec. Qed.
+
+Lemma clashes_ok c ix :
+  clashes c ix = EOk <->
+  clash_key bget (names_of c) (c_uid c) (name_to ix) = None /\
+  clash_key bget (c_cids c) (c_uid c) (cid_to ix) = None /\
+  clash_key bget (c_ips c) (c_uid c) (ip_to ix) = None /\
+  clash_key sm_get (c_subnets c) (c_uid c) (subnet_to ix) = None /\
+  clash_key bget (c_macs c) (c_uid c) (mac_to ix) = None.
+Proof.
+  unfold clashes, names_of.
+  destruct (clash_key bget [c_name c] (c_uid c) (name_to ix)); [split; [discriminate|intros (H & _); discriminate]|].
+  destruct (clash_key bget (c_cids c) (c_uid c) (cid_to ix)); [split; [discriminate|intros (_ & H & _); discriminate]|].
+  destruct (clash_key bget (c_ips c) (c_uid c) (ip_to ix)); [split; [discriminate|intros (_ & _ & H & _); discriminate]|].
+  destruct (clash_key sm_get (c_subnets c) (c_uid c) (subnet_to ix)); [split; [discriminate|intros (_ & _ & _ & H & _); discriminate]|].
+  destruct (clash_key bget (c_macs c) (c_uid c) (mac_to ix)); [split; [discriminate|intros (_ & _ & _ & _ & H); discriminate]|].
+  tauto.
+Qed.
+
+Lemma add_keys_sorted ks u : forall m, sm_sorted m -> sm_sorted (add_keys sm_set ks u m).
+Proof.
+  unfold add_keys. induction ks as [|k ks IH]; cbn; intros m H; [assumption|].
+  apply IH. apply sm_set_sorted; assumption.
+Qed.
+Lemma del_keys_sorted ks : forall m : list (prefix * uid), sm_sorted m -> sm_sorted (del_keys sm_del ks m).
+Proof.
+  unfold del_keys. induction ks as [|k ks IH]; cbn; intros m H; [assumption|].
+  apply IH. apply sm_del_sorted; assumption.
+Qed.
+
+Lemma deref_add_eq c ix : deref (index_add c ix) (c_uid c) = Some c.
+Proof. unfold deref, index_add; cbn [by_uid]. apply al_get_set_eq, N.eqb_eq. Qed.
+Lemma deref_add_ne c ix u : u <> c_uid c -> deref (index_add c ix) u = deref ix u.
+Proof. intros H. unfold deref, index_add; cbn [by_uid]. apply al_get_set_ne; [apply N.eqb_eq|congruence]. Qed.
+Lemma deref_remove_eq c ix : deref (index_remove c ix) (c_uid c) = None.
+Proof. unfold deref, index_remove; cbn [by_uid]. apply al_get_del_eq. Qed.
+Lemma deref_remove_ne c ix u : u <> c_uid c -> deref (index_remove c ix) u = deref ix u.
+Proof. intros H. unfold deref, index_remove; cbn [by_uid]. apply al_get_del_ne; [apply N.eqb_eq|congruence]. Qed.
+
+Lemma Inv_index_add c ix :
+  Inv ix -> deref ix (c_uid c) = None -> clashes c ix = EOk -> Inv (index_add c ix).
+Proof.
+  intros [Hu Hn Hc Hi Hm Hs Hso] Hfresh Hcl.
+  apply clashes_ok in Hcl. destruct Hcl as (Cn & Cc & Ci & Cs & Cm).
+  pose proof (deref_add_eq c ix) as Dn. pose proof (deref_add_ne c ix) as Do.
+  constructor.
+  - intros u c0 H. destruct (N.eq_dec u (c_uid c)) as [->|Hne]; [congruence|].
+    rewrite Do in H by assumption. auto.
+  - change (name_to (index_add c ix)) with (add_keys bset (names_of c) (c_uid c) (name_to ix)).
+    eapply map_ok_add; eauto using bytes_dec, bget_set_eq, bget_set_ne.
+  - cbn [index_add cid_to]. eapply map_ok_add; eauto using bytes_dec, bget_set_eq, bget_set_ne.
+  - cbn [index_add ip_to]. eapply map_ok_add; eauto using bytes_dec, bget_set_eq, bget_set_ne.
+  - cbn [index_add mac_to]. eapply map_ok_add; eauto using bytes_dec, bget_set_eq, bget_set_ne.
+  - cbn [index_add subnet_to]. eapply map_ok_add; eauto using prefix_dec, @sm_get_set_eq, @sm_get_set_ne.
+  - cbn [index_add subnet_to]. apply add_keys_sorted; assumption.
+Qed.
+
+Lemma Inv_index_remove c ix u0 :
+  Inv ix -> deref ix u0 = Some c -> Inv (index_remove c ix).
+Proof.
+  intros [Hu Hn Hc Hi Hm Hs Hso] Hst.
+  assert (Eu : c_uid c = u0) by auto. subst u0.
+  pose proof (deref_remove_eq c ix) as Dn. pose proof (deref_remove_ne c ix) as Do.
+  constructor.
+  - intros u c0 H. destruct (N.eq_dec u (c_uid c)) as [->|Hne]; [congruence|].
+    rewrite Do in H by assumption. auto.
+  - change (name_to (index_remove c ix)) with (del_keys bdel (names_of c) (name_to ix)).
+    eapply map_ok_remove; eauto using bytes_dec, bget_del_eq, bget_del_ne.
+  - cbn [index_remove cid_to]. eapply map_ok_remove; eauto using bytes_dec, bget_del_eq, bget_del_ne.
+  - cbn [index_remove ip_to]. eapply map_ok_remove; eauto using bytes_dec, bget_del_eq, bget_del_ne.
+  - cbn [index_remove mac_to]. eapply map_ok_remove; eauto using bytes_dec, bget_del_eq, bget_del_ne.
+  - cbn [index_remove subnet_to]. eapply map_ok_remove; eauto using prefix_dec, sm_get_del_eq, sm_get_del_ne.
+  - cbn [index_remove subnet_to]. apply del_keys_sorted; assumption.
+Qed.
+
+Lemma bclash_after_del ks ks' u (m : list (bytes * uid)) :
+  clash_key bget ks u m = None -> clash_key bget ks u (del_keys bdel ks' m) = None.
+Proof. apply (clash_none_after_del _ _ bget bdel bytes_dec bget_del_eq bget_del_ne). Qed.
+Lemma sclash_after_del ks ks' u (m : list (prefix * uid)) :
+  clash_key sm_get ks u m = None -> clash_key sm_get ks u (del_keys sm_del ks' m) = None.
+Proof. apply (clash_none_after_del _ _ sm_get sm_del prefix_dec sm_get_del_eq sm_get_del_ne). Qed.
+
+Lemma clashes_after_remove p stored ix :
+  clashes p ix = EOk -> clashes p (index_remove stored ix) = EOk.
+Proof.
+  rewrite !clashes_ok. intros (Cn & Cc & Ci & Cs & Cm).
+  change (name_to (index_remove stored ix)) with (del_keys bdel (names_of stored) (name_to ix)).
+  cbn [index_remove cid_to ip_to mac_to subnet_to].
+  auto 10 using bclash_after_del, sclash_after_del.
+Qed.
+
+Lemma Inv_step ix o : Inv ix -> Inv (fst (step ix o)).
+Proof.
+  intros HI. destruct o as [c|n c|n]; cbn [step].
+  - unfold add. destruct (negb (validate c)); [exact HI|].
+    destruct (deref ix (c_uid c)) eqn:D; [exact HI|].
+    destruct (clashes c ix) eqn:C; try exact HI. cbn [fst]. apply Inv_index_add; assumption.
+  - unfold update. destruct (negb (validate c)); [exact HI|].
+    destruct (bget n (name_to ix)) as [u|]; [|exact HI].
+    destruct (deref ix u) as [stored|] eqn:D; [|exact HI].
+    destruct (clashes (set_uid (c_uid stored) c) ix) eqn:C; try exact HI. cbn [fst].
+    apply Inv_index_add.
+    + eapply Inv_index_remove; eassumption.
+    + cbn [set_uid c_uid]. apply deref_remove_eq.
+    + apply clashes_after_remove; assumption.
+  - unfold remove_by_name. destruct (bget n (name_to ix)) as [u|]; [|exact HI].
+    destruct (deref ix u) as [stored|] eqn:D; [|exact HI].
+    cbn [fst]. eapply Inv_index_remove; eassumption.
+Qed.
+
+(** The invariant holds in every state reachable by any history. *)
+Lemma Inv_run_from ops : forall ix, Inv ix -> Inv (run ops ix).
+Proof.
+  unfold run. induction ops as [|o ops IH]; cbn; intros ix H; [assumption|].
+  apply IH. apply Inv_step; assumption.
+Qed.
+
+Theorem index_consistent : forall ops, Inv (run ops empty_index).
+Proof. intros ops. apply Inv_run_from, Inv_empty. Qed.
+
 (** * A rejected operation leaves the registry as it was *)
 Lemma failed_op_is_noop : forall ix o ix' e,
   step ix o = (ix', e) -> e <> EOk -> ix' = ix.
@@ -18,3 +513,244 @@ Proof.
   - unfold remove_by_name in H. destruct (bget n (name_to ix)); [|congruence].
     destruct (deref ix u); congruence.
 Qed.
+
+(** * Resolution: every identifier resolves to its unique owner, or to none *)
+Definition owner_of {K} (ix : index) (keys : client -> list K) (k : K) (u : uid) : Prop :=
+  exists c, deref ix u = Some c /\ In k (keys c).
+
+Definition resolution_statement (ix : index) : Prop :=
+  (forall n u, find_by_name ix n = Some u <-> owner_of ix names_of n u) /\
+  (forall id u, find_by_cid ix id = Some u <-> owner_of ix c_cids id u) /\
+  (forall a u, bget a (ip_to ix) = Some u <-> owner_of ix c_ips a u) /\
+  (forall m u, find_by_mac ix m = Some u <-> owner_of ix c_macs m u) /\
+  (forall p u, sm_get p (subnet_to ix) = Some u <-> owner_of ix c_subnets p u).
+
+Lemma resolution ix : Inv ix -> resolution_statement ix.
+Proof. intros [Hu Hn Hc Hi Hm Hs Hso]. repeat split; first [apply Hn|apply Hc|apply Hi|apply Hm|apply Hs]. Qed.
+
+(** Two stored clients never list the same name or identifier. *)
+Definition owners_unique_statement (ix : index) : Prop :=
+  (forall k u1 u2, owner_of ix names_of k u1 -> owner_of ix names_of k u2 -> u1 = u2) /\
+  (forall k u1 u2, owner_of ix c_cids k u1 -> owner_of ix c_cids k u2 -> u1 = u2) /\
+  (forall k u1 u2, owner_of ix c_ips k u1 -> owner_of ix c_ips k u2 -> u1 = u2) /\
+  (forall k u1 u2, owner_of ix c_macs k u1 -> owner_of ix c_macs k u2 -> u1 = u2) /\
+  (forall k u1 u2, owner_of ix c_subnets k u1 -> owner_of ix c_subnets k u2 -> u1 = u2).
+
+Lemma owners_unique ix : Inv ix -> owners_unique_statement ix.
+Proof.
+  intros HI. destruct (resolution ix HI) as (Rn & Rc & Ri & Rm & Rs).
+  repeat split; intros k u1 u2 H1 H2.
+  - apply Rn in H1, H2. congruence.
+  - apply Rc in H1, H2. congruence.
+  - apply Ri in H1, H2. congruence.
+  - apply Rm in H1, H2. congruence.
+  - apply Rs in H1, H2. congruence.
+Qed.
+
+(** * An accepted operation never makes two clients share a name or identifier *)
+Definition shares (c c' : client) : Prop :=
+  c_name c = c_name c' \/
+  (exists k, In k (c_cids c) /\ In k (c_cids c')) \/
+  (exists k, In k (c_ips c) /\ In k (c_ips c')) \/
+  (exists k, In k (c_subnets c) /\ In k (c_subnets c')) \/
+  (exists k, In k (c_macs c) /\ In k (c_macs c')).
+
+Lemma no_clash_no_share K M (get : K -> M -> option uid) cl keys m ks u0 u c' k :
+  map_ok K M get cl keys m -> clash_key get ks u0 m = None -> cl u = Some c' -> u <> u0 ->
+  In k ks -> In k (keys c') -> False.
+Proof.
+  intros Hok Hc Hcl Hne Hk Hk'. rewrite clash_key_none in Hc. apply Hne. apply (Hc k u Hk). apply Hok. eauto.
+Qed.
+
+Lemma clashes_no_share ix p u c' :
+  Inv ix -> clashes p ix = EOk -> deref ix u = Some c' -> u <> c_uid p -> ~ shares p c'.
+Proof.
+  intros [Hu Hn Hc Hi Hm Hs Hso] Hcl Hd Hne.
+  apply clashes_ok in Hcl. destruct Hcl as (Cn & Cc & Ci & Cs & Cm).
+  intros [E|[(k & H1 & H2)|[(k & H1 & H2)|[(k & H1 & H2)|(k & H1 & H2)]]]].
+  - eapply (no_clash_no_share _ _ bget (deref ix) names_of _ _ _ _ _ (c_name p) Hn Cn Hd Hne); cbn; auto.
+  - eapply (no_clash_no_share _ _ bget (deref ix) c_cids _ _ _ _ _ k Hc Cc Hd Hne); assumption.
+  - eapply (no_clash_no_share _ _ bget (deref ix) c_ips _ _ _ _ _ k Hi Ci Hd Hne); assumption.
+  - eapply (no_clash_no_share _ _ sm_get (deref ix) c_subnets _ _ _ _ _ k Hs Cs Hd Hne); assumption.
+  - eapply (no_clash_no_share _ _ bget (deref ix) c_macs _ _ _ _ _ k Hm Cm Hd Hne); assumption.
+Qed.
+
+Lemma add_rejects_sharing ix c ix' :
+  Inv ix -> step ix (OAdd c) = (ix', EOk) ->
+  forall u c', deref ix u = Some c' -> ~ shares c c'.
+Proof.
+  intros HI H u c' Hd. cbn [step] in H. unfold add in H.
+  destruct (negb (validate c)); [congruence|].
+  destruct (deref ix (c_uid c)) eqn:D; [congruence|].
+  destruct (clashes c ix) eqn:C; try congruence.
+  eapply clashes_no_share; eauto. intros ->. congruence.
+Qed.
+
+Lemma update_rejects_sharing ix n c ix' :
+  Inv ix -> step ix (OUpdate n c) = (ix', EOk) ->
+  forall u c', deref ix u = Some c' -> c_name c' <> n -> ~ shares c c'.
+Proof.
+  intros HI H u c' Hd Hn. cbn [step] in H. unfold update in H.
+  destruct (negb (validate c)); [congruence|].
+  destruct (bget n (name_to ix)) as [u0|] eqn:B; [|congruence].
+  destruct (deref ix u0) as [stored|] eqn:D; [|congruence].
+  destruct (clashes (set_uid (c_uid stored) c) ix) eqn:C; try congruence.
+  assert (Eu : c_uid stored = u0) by (eapply inv_uid; eassumption).
+  assert (Hne : u <> u0).
+  { intros ->. apply (inv_name ix HI) in B. destruct B as (c0 & Hc0 & Hin).
+    rewrite Hd in Hc0. inversion Hc0; subst c0. cbn in Hin. destruct Hin as [E|[]]. congruence. }
+  intros Hs. apply (clashes_no_share ix (set_uid (c_uid stored) c) u c' HI C Hd).
+  - cbn [set_uid c_uid]. congruence.
+  - exact Hs.
+Qed.
+
+(** * Precedence of the lookup used for a request *)
+Section Precedence.
+  Variables (ix : index) (dhcp : addr -> option bytes) (id : bytes) (a : addr).
+
+  Definition no_cid := forall u, ~ owner_of ix c_cids id u.
+  Definition no_ip := forall u, ~ owner_of ix c_ips a u.
+  Definition no_cidr := forall p u, owner_of ix c_subnets p u -> contains p a = false.
+
+  (** ClientID, else exact address, else the containing prefix that is longest
+      (first in [subnet_compare] order among the containing ones), else the MAC
+      of the address' lease, else nobody. *)
+  Inductive resolves : option uid -> Prop :=
+  | RCid u : owner_of ix c_cids id u -> resolves (Some u)
+  | RIp u : no_cid -> owner_of ix c_ips a u -> resolves (Some u)
+  | RCidr u p : no_cid -> no_ip -> owner_of ix c_subnets p u -> contains p a = true ->
+      (forall p' u', owner_of ix c_subnets p' u' -> contains p' a = true ->
+         snd p' <= snd p /\ (p' = p \/ subnet_compare p p' = Lt)) ->
+      resolves (Some u)
+  | RMac u m : no_cid -> no_ip -> no_cidr -> dhcp a = Some m -> owner_of ix c_macs m u ->
+      resolves (Some u)
+  | RNone : no_cid -> no_ip -> no_cidr ->
+      (forall m, dhcp a = Some m -> forall u, ~ owner_of ix c_macs m u) -> resolves None.
+
+  Hypothesis HI : Inv ix.
+
+  Lemma precedence : resolves (acf_find ix dhcp id a).
+  Proof.
+    destruct (resolution ix HI) as (Rn & Rc & Ri & Rm & Rs).
+    unfold acf_find.
+    destruct (find_by_cid ix id) as [u|] eqn:Ec; [apply RCid, Rc, Ec|].
+    assert (Ncid : no_cid). { intros u Ho. apply Rc in Ho. congruence. }
+    unfold find_by_ip.
+    destruct (bget a (ip_to ix)) as [u|] eqn:Ei; [apply RIp; [assumption|apply Ri, Ei]|].
+    assert (Nip : no_ip). { intros u Ho. apply Ri in Ho. congruence. }
+    destruct (List.find (fun pu => contains (fst pu) a) (subnet_to ix)) as [[p u]|] eqn:Ef.
+    - destruct (find_sorted_min _ _ _ _ (inv_sorted ix HI) Ef) as (Hin & Hc & Hmin). cbn [fst] in Hc.
+      apply RCidr with (p := p); try assumption.
+      + apply Rs. apply sm_sorted_in_get; [apply (inv_sorted ix HI)|assumption].
+      + intros p' u' Ho Hc'. apply Rs in Ho. apply al_get_in in Ho; [|apply prefix_eqb_spec].
+        destruct (Hmin (p', u') Ho Hc') as [E|Hlt].
+        * inversion E; subst. split; [lia|auto].
+        * unfold sm_lt in Hlt; cbn [fst] in Hlt. split; [apply subnet_compare_lt_bits; assumption|auto].
+    - assert (Ncidr : no_cidr).
+      { intros p u Ho. apply Rs in Ho. apply al_get_in in Ho; [|apply prefix_eqb_spec].
+        apply (find_none _ _ Ef) in Ho. exact Ho. }
+      destruct (dhcp a) as [m|] eqn:Ed.
+      + destruct (find_by_mac ix m) as [u|] eqn:Em.
+        * eapply RMac; eauto. apply Rm, Em.
+        * apply RNone; try assumption. intros m' E u Ho. rewrite Ed in E. inversion E; subst m'. apply Rm in Ho. congruence.
+      + apply RNone; try assumption. intros m' E; rewrite Ed in E; discriminate.
+  Qed.
+
+  (** The specification determines the answer. *)
+  Lemma resolves_functional r1 r2 : resolves r1 -> resolves r2 -> r1 = r2.
+  Proof.
+    destruct (owners_unique ix HI) as (Un & Uc & Ui & Um & Us).
+    intros H1 H2.
+    destruct H1 as [u1 O1|u1 N1 O1|u1 p1 N1 NI1 O1 C1 M1|u1 m1 N1 NI1 NC1 D1 O1|N1 NI1 NC1 D1];
+    destruct H2 as [u2 O2|u2 N2 O2|u2 p2 N2 NI2 O2 C2 M2|u2 m2 N2 NI2 NC2 D2 O2|N2 NI2 NC2 D2];
+    try (f_equal; eauto; fail);
+    try (exfalso; first [eapply N1; eassumption|eapply N2; eassumption|eapply NI1; eassumption|eapply NI2; eassumption]);
+    try (exfalso; first [rewrite (NC1 _ _ O2) in C2; discriminate|rewrite (NC2 _ _ O1) in C1; discriminate]).
+    - destruct (M1 _ _ O2 C2) as (_ & [E|L1]); [subst; f_equal; eauto|].
+      destruct (M2 _ _ O1 C1) as (_ & [E|L2]); [subst; f_equal; eauto|].
+      rewrite (subnet_compare_antisym p1 p2), L1 in L2. discriminate.
+    - rewrite D1 in D2. inversion D2; subst. f_equal; eauto.
+    - exfalso. eapply D2; eassumption.
+    - exfalso. eapply D1; eassumption.
+  Qed.
+End Precedence.
+
+(** * Settings *)
+Lemma apply_client_spec c g :
+  let s := apply_client c g in
+  s_client_name s = c_name c /\
+  (c_own_settings c = true ->
+     s_filtering s = c_filtering c /\ s_safesearch s = c_safesearch c /\
+     s_safebrowsing s = c_safebrowsing c /\ s_parental s = c_parental c) /\
+  (c_own_settings c = false ->
+     s_filtering s = s_filtering g /\ s_safesearch s = s_safesearch g /\
+     s_safebrowsing s = s_safebrowsing g /\ s_parental s = s_parental g) /\
+  (c_own_blocked c = true -> s_blocked s = c_blocked c) /\
+  (c_own_blocked c = false -> s_blocked s = s_blocked g).
+Proof.
+  unfold apply_client. destruct (c_own_settings c), (c_own_blocked c); cbn; intuition congruence.
+Qed.
+
+Lemma settings_applied ix dhcp id a g :
+  Inv ix ->
+  match acf_find ix dhcp id a with
+  | None => apply_client_filtering ix dhcp id a g = Some g
+  | Some u => exists c, deref ix u = Some c /\ c_uid c = u /\
+                        apply_client_filtering ix dhcp id a g = Some (apply_client c g)
+  end.
+Proof.
+  intros HI. pose proof (precedence ix dhcp id a HI) as Hr. unfold apply_client_filtering.
+  destruct (acf_find ix dhcp id a) as [u|]; [|reflexivity].
+  assert (Hex : exists c, deref ix u = Some c).
+  { inversion Hr as [u' (c & Hc & _)|u' _ (c & Hc & _)|u' p _ _ (c & Hc & _)|u' m _ _ _ _ (c & Hc & _)|]; eauto. }
+  destruct Hex as (c & Hc). exists c. rewrite Hc. split; [reflexivity|]. split; [|reflexivity].
+  eapply inv_uid; eassumption.
+Qed.
+
+(** * A concrete registry (premises of the implications above are satisfiable) *)
+Definition ex_client (u : uid) (name : bytes) cids ips subnets macs (own ownb : bool) : client :=
+  {| c_uid := u; c_name := name; c_cids := cids; c_ips := ips; c_subnets := subnets; c_macs := macs;
+     c_own_settings := own; c_filtering := true; c_safesearch := false; c_safebrowsing := true;
+     c_parental := false; c_own_blocked := ownb; c_blocked := Some [[120]];
+     c_ignore_qlog := false; c_ignore_stats := false |}.
+
+Definition ex_ops : list op :=
+  [ OAdd (ex_client 1 [97] [] [] [([10;0;0;0], 8)] [] true false);
+    OAdd (ex_client 2 [98] [[99;108;105]] [[10;1;2;3]] [([10;1;2;0], 24)] [] false true);
+    OAdd (ex_client 3 [99] [] [] [([10;1;0;0], 16)] [[170;187;204;221;238;1]] true true);
+    OAdd (ex_client 4 [100] [] [[10;1;2;3]] [] [] true true);                      (* rejected: IP of b *)
+    OUpdate [99] (ex_client 9 [100] [] [[10;9;9;9]] [([10;1;0;0], 16)] [[170;187;204;221;238;1]] true true);
+    ORemove [122] ].
+
+Definition ex_ix : index := run ex_ops empty_index.
+Definition ex_dhcp (a : addr) : option bytes :=
+  if eqb_bytes a [192;168;1;5] then Some [170;187;204;221;238;1] else None.
+
+Lemma example_registry :
+  Inv ex_ix /\
+  length (by_uid ex_ix) = 3%nat /\
+  (* ClientID beats the address; exact address beats prefixes; /24 beats /16 beats /8; lease MAC last *)
+  acf_find ex_ix ex_dhcp [99;108;105] [10;9;9;9] = Some 2 /\
+  acf_find ex_ix ex_dhcp [] [10;1;2;3] = Some 2 /\
+  acf_find ex_ix ex_dhcp [] [10;1;2;77] = Some 2 /\
+  acf_find ex_ix ex_dhcp [] [10;1;200;1] = Some 3 /\
+  acf_find ex_ix ex_dhcp [] [10;200;0;1] = Some 1 /\
+  acf_find ex_ix ex_dhcp [] [192;168;1;5] = Some 3 /\
+  acf_find ex_ix ex_dhcp [] [8;8;8;8] = None /\
+  (* rejected operations *)
+  snd (step ex_ix (OAdd (ex_client 5 [101] [] [[10;9;9;9]] [] [] true true))) = EIP /\
+  snd (step ex_ix (OUpdate [97] (ex_client 6 [98] [] [] [([10;0;0;0], 8)] [] true true))) = EName /\
+  (* an accepted update that keeps its own identifiers *)
+  snd (step ex_ix (OUpdate [97] (ex_client 7 [97] [] [] [([10;0;0;0], 8); ([10;2;0;0], 8)] [] false false))) = EOk.
+Proof. split; [apply index_consistent|]. vm_compute. repeat split; reflexivity. Qed.
+
+Lemma resolution_full ix : Inv ix -> resolution_statement ix /\ owners_unique_statement ix.
+Proof. intros H; split; [exact (resolution ix H)|exact (owners_unique ix H)]. Qed.
+
+Lemma resolution_any_history ops :
+  resolution_statement (run ops empty_index) /\ owners_unique_statement (run ops empty_index).
+Proof. apply resolution_full, index_consistent. Qed.
+
+Lemma precedence_unique ix dhcp id a r1 r2 :
+  Inv ix -> resolves ix dhcp id a r1 -> resolves ix dhcp id a r2 -> r1 = r2.
+Proof. intros H. exact (resolves_functional ix dhcp id a H r1 r2). Qed.
